@@ -15,6 +15,45 @@ class AddImplicitCastVisitor(Visitor.DefaultVisitor):
             assert isinstance(componentType, types.ScalarType)
             return componentType
 
+    def _ConvertTo(self, expr, targetType):
+        """Storing or returning a value converts it to the target type, as long
+        as both have the same shape."""
+        if expr is None:
+            return expr
+
+        sourceType = expr.GetType()
+        if not isinstance(sourceType, types.PrimitiveType) or not isinstance(
+            targetType, types.PrimitiveType
+        ):
+            return expr
+
+        if (
+            sourceType != targetType
+            and sourceType.GetKind() == targetType.GetKind()
+            and types.IsCompatible(targetType, sourceType)
+        ):
+            return ast.CastExpression(expr, targetType, True)
+
+        return expr
+
+    def v_Function(self, node, ctx=None):
+        self.__returnType = node.GetType().GetReturnType()
+        node.AcceptVisitor(self, ctx)
+
+    def v_ReturnStatement(self, node, ctx=None):
+        node.AcceptVisitor(self, ctx)
+        node._Traverse(lambda expr: self._ConvertTo(expr, self.__returnType))
+
+    def v_VariableDeclaration(self, node, ctx=None):
+        node.AcceptVisitor(self, ctx)
+        node._Traverse(lambda expr: self._ConvertTo(expr, node.GetType()))
+
+    def v_AssignmentExpression(self, node, ctx=None):
+        self.v_Generic(node.GetLeft(), ctx)
+        self.v_Generic(node.GetRight(), ctx)
+
+        node.SetRight(self._ConvertTo(node.GetRight(), node.GetLeft().GetType()))
+
     def v_ArrayExpression(self, node, ctx=None):
         assert isinstance(node, ast.ArrayExpression)
         node.GetExpression().AcceptVisitor(self, ctx)
